@@ -49,6 +49,9 @@ def build(case, tree=None, provider=None):
             obj = vPeriod(v)
         elif kind == "vDDDLists":
             obj = vDDDLists(v)
+        elif kind == "bare-params":        # the typed value with every derived parameter removed again
+            obj = vDDDTypes(v)
+            obj.params.clear()
         elif kind == "vRecur":
             obj = vRecur(v)
         elif kind == "vRecur-setitem":     # rule parts assigned one by one after construction (scalars stay scalars)
@@ -431,6 +434,10 @@ _direct = st.one_of(
     st.builds(lambda n, s: {"node": n, "name": "DUE", "cls": "vDate", "spec": s}, st.integers(0, 9), V.s_date),
     st.builds(lambda n, s: {"node": n, "name": "FREEBUSY", "cls": "vPeriod", "spec": s}, st.integers(0, 9), T.s_value("period")),
     st.builds(lambda n, s: {"node": n, "name": "RDATE", "cls": "vDDDLists", "spec": s}, st.integers(0, 9), T.s_value("dates")),
+    # values stored without the parameters add() would have derived (VALUE=DATE-TIME, VALUE=DATE ...): serialising must not patch them in
+    st.builds(lambda n, s, c: {"node": n, "name": "TRIGGER", "cls": c, "spec": s}, st.integers(0, 9), V.s_utc, st.sampled_from(["vDatetime", "vDDDTypes"])),
+    st.builds(lambda n, s, nm: {"node": n, "name": nm, "cls": "bare-params", "spec": s}, st.integers(0, 9), st.one_of(V.s_date, V.s_utc, V.s_zoned, T.s_value("period")),
+              st.sampled_from(["TRIGGER", "DTSTART", "DTEND", "RDATE", "EXDATE", "DUE", "RECURRENCE-ID", "FREEBUSY", "X-TYPED"])),
     st.builds(lambda n, d, c: {"node": n, "name": "RRULE", "cls": c, "spec": {"k": "recur", "v": d}}, st.integers(0, 9),
               st.permutations([("COUNT", 3), ("FREQ", "DAILY"), ("BYDAY", ["MO", "TU"]), ("INTERVAL", 2), ("WKST", "SU")]).map(dict),
               st.sampled_from(["vRecur", "vRecur-setitem"])),
